@@ -23,6 +23,8 @@ STRENGTHENED = {
     'C01-4': 'caught by the check as of f2be2be with a single occurrence; C01 now also writes 40 buffers of 1000 nodes with distinct timestamps through a pool of 4 workers so that concurrent encoding of text blocks is certain, not incidental',
     'C05-4': 'missed at first (one Reader at a time); C05 now runs every 6th case with two Readers alive at the same time and interposes close(2): a close on a descriptor that is not open is a violation (also in C07)',
     'C08-4': 'missed by the check as of /verif commit f2be2be (confirmed by running that version against the change: rc=0; the Writer scenarios only wrote whole buffers); every C08 scenario now starts with single items followed by flush() before the buffers',
+    'C09-3': 'missed at first: the corpus was meant to hold bzip2 files whose first stream ends 1-2 bytes before a 5000-byte read chunk, but the search for such a first stream (prefix lengths of incompressible data) silently found none for bzip2; the search now runs on the compressible payload with bisection and retries, and the driver fails (exit 2) if the required alignment classes are not in the corpus',
+    'C14-3': 'missed at first (the XML writer output was parsed with expat only, never with the library\'s own XML parser, whose character-data handler is what has to reassemble escaped text); C14 writer mode now also reads every XML block with the real Reader and compares all string sites',
     'C02-1': 'missed at first (string pairs near the 250-character table limit were deliberately kept out of the files); C02 now places pairs of exactly 249/250/251/252 characters followed by references',
 }
 
